@@ -131,7 +131,8 @@ def run_shard(shard, rec, tier, seed):
         for i in range(shard["count"]):
             rng = harness.rng_for(seed, ID, shard["name"], i)
             case = gen.gen_chart(rng, "hostile" if i % 2 else "realistic", n_tracks=rng.choice([1, 2, 4]),
-                                 n_groups=rng.choice([0, 1, 3, 20, 100]), n_tempos=rng.choice([1, 3, 8, 30]), n_globals=0)
+                                 n_groups=rng.choice([0, 1, 3, 20, 100]) if i % 20 else 2500, n_tempos=rng.choice([1, 3, 8, 30]) if i % 20 else 150,
+                                 n_globals=0)
             keys = [body for name, body in case["sections"] if name not in ("Song", "SyncTrack", "Events")
                     and any(" = N " in ln and not ln.rstrip().endswith(" 0") for ln in body)]
             judge(rec, case, keys)
